@@ -261,6 +261,7 @@ func (e *Exec) deliver(tx model.Tx) (TxObs, []Disc, bool) {
 			e.Annotate(e, &discs[i], &tx)
 		}
 	}
+	obs.Res = mc.TxRes{} // events and logs are not needed past the per-transaction oracles
 	return obs, discs, diverged
 }
 
